@@ -218,6 +218,9 @@ func checkC18(p *Prog, r *Report) {
 			}
 		}
 	}
+	// the string form of a key round-trips only for addresses the decoder accepts: the SDK's own address format check (which rejects
+	// the empty address) must be in force — a custom verifier installed through the SDK config replaces it (shared with C16)
+	checkAddressConfig(p, r, kp)
 	// ---- D5: separator -------------------------------------------------------------------------
 	sepC, okSep := p.ConstVal(Rel(aolTypesPkg), "GenesisKeySeparator")
 	var sep string
